@@ -75,6 +75,7 @@ class ImmutableKnotVector(tuple):
         return instance
 
     def __add__(self, nodes: Tuple[float]) -> ImmutableKnotVector:
+        nodes = tuple(nodes)  # A one-pass iterable is walked only here
         newvector = sorted(list(self) + list(nodes))
         if not self.valid(nodes):
             raise ValueError("Cannot insert nodes outside the interval")
